@@ -44,33 +44,10 @@ func (vc *ValidationCeremony) VerifC17FlipLottery() { vc.calculateCeremonyCandid
 // current validation period, then qualification.persist()).
 func (vc *ValidationCeremony) VerifC17AddBlock(block *types.Block) { vc.addBlock(block) }
 
-func (vc *ValidationCeremony) VerifC17ProcessCeremonyTxs(block *types.Block) {
-	vc.processCeremonyTxs(block)
-}
-
-func (vc *ValidationCeremony) VerifC17AddAnswers(short bool, sender common.Address, payload []byte) {
-	vc.qualification.addAnswers(short, sender, payload)
-}
-
-func (vc *ValidationCeremony) VerifC17Persist() { vc.qualification.persist() }
-
 func (vc *ValidationCeremony) VerifC17EpochDb() *database.EpochDb { return vc.epochDb }
-
-func (vc *ValidationCeremony) VerifC17Epoch() uint16 { return vc.epoch }
 
 func (vc *ValidationCeremony) VerifC17LotteryFinished() bool {
 	return vc.lottery.finished && vc.shardCandidates != nil
-}
-
-func (vc *ValidationCeremony) VerifC17StoredAnswers(short bool, addr common.Address) ([]byte, bool) {
-	vc.qualification.lock.RLock()
-	defer vc.qualification.lock.RUnlock()
-	m := vc.qualification.longAnswers
-	if short {
-		m = vc.qualification.shortAnswers
-	}
-	v, ok := m[addr]
-	return v, ok
 }
 
 type VerifC17Shard struct {
